@@ -594,7 +594,10 @@ class Schema:
             else:
                 if isinstance(p_list[-2], dict):
                     last_key = list(p_list[-2].keys())[-1]
-                    p[0][last_key] = p_list[-1]
+                    # a stray word never replaces what was collected as a list or a
+                    # dict (key columns, checks, constraints ...)
+                    if not isinstance(p[0].get(last_key), (list, dict)):
+                        p[0][last_key] = p_list[-1]
 
     def set_properties_for_schema_and_database(self, p: List, p_list: List) -> None:
         if not p[0].get("properties"):
